@@ -5,10 +5,15 @@ From the repo's CURRENT source it regenerates
   * lean/TinsModel/Gen/Layout.lean : where the compiler puts every member / bit-field of the header structs
     (a generated C++ probe compiled with -fno-access-control sets every value bit of every member in a zeroed
     struct and reports the memory bit that changed), which accessors are one-statement accessors of which member
-    with which byte-order conversion (recognised in the C++ source text), the parameter domain of every setter
-    (deduced by the C++ compiler in the probe) and the default-constructed images;
+    with which byte-order conversion (recognised in the C++ source text; accessors of a nested object such as
+    `capabilities().ess()` and whole-array copies from a pointer included), the parameter domain of every setter
+    (deduced by the C++ compiler in the probe), the default-constructed images — all of it per class (`byClass`) —
+    and the class blocks of Spec.rows (`segments`);
   * harness/c15_fields.cpp : the correspondence harness, one getter/setter pair per row of the hand-written
-    table lean/TinsModel/Fields/Spec.lean.
+    table lean/TinsModel/Fields/Spec.lean (PDU classes, variants of a class with another header shape, and the two
+    ICMP extension classes that are not PDUs);
+  * coverage statistics: every public (setter, getter) pair with a scalar parameter found in include/tins/**.h,
+    which of them are header fields (not stored in an option / tag) and which of those a Spec row covers.
 Files are written only when their content changes.  Anything the translator cannot recognise becomes a `custom`
 row (needs a hand-written model in Fields/Custom.lean); it never guesses.
 """
@@ -28,14 +33,74 @@ GEN_HARNESS = os.path.join(VERIF, "harness", "c15_fields.cpp")
 # C++ facts the harness needs to drive a class: how to build one, which members make up the header image (in
 # serialisation order), whether a RawPDU payload is attached (keeps the "next protocol" field from being derived),
 # statements that re-establish a class invariant after the image has been poked in (`o` is the object).
-def cfg(include, ctype, image, inner=True, ctor=None, fixup="", files=None, names=None, exprs=None, arg=None, payload=3, parent=None, bases=None):
+#
+# A key of CONFIG is the class name of Spec.lean.  Several keys may share one C++ type ("variants": the same class
+# with a different header shape, e.g. ICMPv6 router advertisement = 8-byte header + reachable time + retransmit timer).
+#
+# image entry: (lvalue, struct)                     lvalue as written in the accessors of the class itself
+#              (lvalue, struct, source name, owner) lvalue for the harness (may be qualified, `EAPOL::header_`), the name
+#                                                   the accessors of class `owner` use for it
+#   struct = name of the struct type | "@int" (a scalar member) | "@bytes" (an array / address member) |
+#            "@bytes:N" (only the first N bytes of the member belong to the image)
+# sub:   field -> (object accessor, nested class, image source name, member path): `o.capabilities().ess(v)`
+# fix:   [(byte index, and-mask, or-mask)] applied by the generators to every image (keeps the variant's shape)
+# avoid: field -> values the generators never pass (the serialisation changes shape there)
+def cfg(include, ctype, image, inner=True, ctor=None, fixup="", files=None, names=None, exprs=None, arg=None, payload=3, parent=None,
+        bases=None, sub=None, serial=True, pdu=True, ser_skip=0, fix=None, avoid=None, ser_expr=None):
     return dict(include=include, type=ctype, image=image, inner=inner, ctor=ctor or f"new {ctype}()", fixup=fixup, parent=parent, bases=bases or [],
-                files=files or [], names=names or {}, exprs=exprs or {}, arg=arg or {}, payload=payload)
+                files=files or [], names=names or {}, exprs=exprs or {}, arg=arg or {}, payload=payload, sub=sub or {}, serial=serial, pdu=pdu,
+                ser_skip=ser_skip, fix=fix or [], avoid=avoid or {}, ser_expr=ser_expr)
+
+
+def img_entry(e):
+    lv, st = e[0], e[1]
+    return dict(lv=lv, st=st, src=(e[2] if len(e) > 2 else lv), owner=(e[3] if len(e) > 3 else None))
 
 
 def tcp_flag(n):
     return (f"to_val(o.get_flag(Tins::TCP::{n}))", f"o.set_flag(Tins::TCP::{n}, Conv<Tins::small_uint<1> >::from(v))")
 
+
+def ptr_acc(name, n):
+    """accessor pair `const uint8_t* name() const` / `void name(const uint8_t*)` over an n-byte array"""
+    return (f"std::string(\"x\") + hexs(o.{name}(), {n})", f"o.{name}(byte_ptr(v, {n}))")
+
+
+D11 = "tins/dot11/"
+D11_BASE = ["src/dot11/dot11_base.cpp", "include/tins/dot11/dot11_base.h"]
+D11_MGMT = ["src/dot11/dot11_mgmt.cpp", "include/tins/dot11/dot11_mgmt.h"] + D11_BASE
+D11_CTRL = ["src/dot11/dot11_control.cpp", "include/tins/dot11/dot11_control.h"] + D11_BASE
+D11_DATA = ["src/dot11/dot11_data.cpp", "include/tins/dot11/dot11_data.h"] + D11_BASE
+MGMT_IMG = [("header_", "dot11_header"), ("ext_header_", "dot11_extended_header")]
+CAPS = ["ess", "ibss", "cf_poll", "cf_poll_req", "privacy", "short_preamble", "pbcc", "channel_agility", "spectrum_mgmt", "qos", "sst",
+        "apsd", "radio_measurement", "dsss_ofdm", "delayed_block_ack", "immediate_block_ack"]
+# a management frame with To DS = From DS = 1 carries a fourth address between the MAC header and the fixed
+# parameters (libtins), so the classes with fixed parameters keep From DS = 0 (frame control byte 1, bit 1)
+NO_FROM_DS = dict(fix=[(1, 0xfd, 0x00)], avoid={"from_ds": {"1"}})
+BOTH_DS = [(1, 0xfc, 0x03)]
+
+
+def caps_sub():
+    return {"cap_" + c: ("capabilities()", "capability_information", "body_", "capability", c) for c in CAPS}
+
+
+def mgmt(name, hdr, src, body=None, caps=False, **kw):
+    image = list(MGMT_IMG) + ([("body_", body)] if body else [])
+    extra = dict(NO_FROM_DS) if body else {}
+    extra.update(kw)
+    return cfg(D11 + hdr, "Tins::" + name, image, files=[f"src/dot11/{src}.cpp", f"include/tins/dot11/{src}.h"] + D11_MGMT,
+               bases=["Tins::Dot11ManagementFrame", "Tins::Dot11"], sub=(caps_sub() if caps else None), **extra)
+
+
+def ctrl_ta(name, extra_image=(), **kw):
+    return cfg(D11 + "dot11_control.h", "Tins::" + name, [("header_", "dot11_header"), ("taddr_", "@bytes")] + list(extra_image),
+               files=D11_CTRL, bases=["Tins::Dot11ControlTA", "Tins::Dot11Control", "Tins::Dot11"], **kw)
+
+
+ICMP6 = dict(files=["src/icmpv6.cpp", "include/tins/icmpv6.h"])
+ICMP4 = dict(files=["src/icmp.cpp", "include/tins/icmp.h"])
+LLCF = dict(files=["src/llc.cpp", "include/tins/llc.h"])
+EAPOLF = ["src/eapol.cpp", "include/tins/eapol.h"]
 
 CONFIG = {
     # IP without a parent fills a zero source address from the routing table when serialised: give it an Ethernet parent
@@ -47,7 +112,13 @@ CONFIG = {
                exprs={"flag_" + n.lower(): tcp_flag(n) for n in ["FIN", "SYN", "RST", "PSH", "ACK", "URG", "ECE", "CWR"]},
                arg={"flag_" + n.lower(): "small 1 8" for n in ["FIN", "SYN", "RST", "PSH", "ACK", "URG", "ECE", "CWR"]}),
     "UDP": cfg("tins/udp.h", "Tins::UDP", [("header_", "udp_header")], files=["src/udp.cpp", "include/tins/udp.h"]),
-    "ICMP": cfg("tins/icmp.h", "Tins::ICMP", [("header_", "icmp_header")], files=["src/icmp.cpp", "include/tins/icmp.h"]),
+    "ICMP": cfg("tins/icmp.h", "Tins::ICMP", [("header_", "icmp_header")], **ICMP4),
+    # RFC 792 timestamp / RFC 950 address mask messages: the 8-byte header is followed by three timestamps / one mask
+    "ICMPTimestamp": cfg("tins/icmp.h", "Tins::ICMP", [("header_", "icmp_header"), ("orig_timestamp_or_address_mask_", "@int"),
+                                                        ("recv_timestamp_", "@int"), ("trans_timestamp_", "@int")],
+                         ctor="new Tins::ICMP(Tins::ICMP::TIMESTAMP_REQUEST)", fix=[(0, 0x00, 13)], **ICMP4),
+    "ICMPAddressMask": cfg("tins/icmp.h", "Tins::ICMP", [("header_", "icmp_header"), ("orig_timestamp_or_address_mask_", "@int")],
+                           ctor="new Tins::ICMP(Tins::ICMP::ADDRESS_MASK_REQUEST)", fix=[(0, 0x00, 17)], **ICMP4),
     "ARP": cfg("tins/arp.h", "Tins::ARP", [("header_", "arp_header")], files=["src/arp.cpp", "include/tins/arp.h"]),
     "EthernetII": cfg("tins/ethernetII.h", "Tins::EthernetII", [("header_", "ethernet_header")],
                       files=["src/ethernetII.cpp", "include/tins/ethernetII.h"]),
@@ -63,24 +134,104 @@ CONFIG = {
     "IPSecAH": cfg("tins/ipsec.h", "Tins::IPSecAH", [("header_", "ipsec_header")], inner=False, files=["src/ipsec.cpp", "include/tins/ipsec.h"]),
     "IPSecESP": cfg("tins/ipsec.h", "Tins::IPSecESP", [("header_", "ipsec_header#2")], files=["src/ipsec.cpp", "include/tins/ipsec.h"]),
     "DNS": cfg("tins/dns.h", "Tins::DNS", [("header_", "dns_header")], inner=False, files=["src/dns.cpp", "include/tins/dns.h"]),
-    "BootP": cfg("tins/bootp.h", "Tins::BootP", [("bootp_", "bootp_header")], inner=False, files=["src/bootp.cpp", "include/tins/bootp.h"]),
-    "ICMPv6": cfg("tins/icmpv6.h", "Tins::ICMPv6", [("header_", "icmp6_header")], files=["src/icmpv6.cpp", "include/tins/icmpv6.h"]),
+    "BootP": cfg("tins/bootp.h", "Tins::BootP", [("bootp_", "bootp_header")], inner=False, files=["src/bootp.cpp", "include/tins/bootp.h"],
+                 exprs={"sname": ptr_acc("sname", 64), "file": ptr_acc("file", 128),
+                        "chaddr": ("to_val(o.chaddr())", "o.chaddr(Conv<Tins::HWAddress<16> >::from(v))"),
+                        # the 6-byte overload of the template setter, read back through the first six bytes of the field
+                        "chaddr_mac": ("to_val(Tins::HWAddress<6>(o.chaddr().begin()))", "o.chaddr(Conv<Tins::HWAddress<6> >::from(v))")},
+                 arg={"sname": "bytes 64", "file": "bytes 128", "chaddr": "bytes 16", "chaddr_mac": "bytes 6"},
+                 names={"chaddr_mac": ("chaddr", "chaddr")}),
+    "ICMPv6": cfg("tins/icmpv6.h", "Tins::ICMPv6", [("header_", "icmp6_header")], **ICMP6),
+    # RFC 4861 §4.2 router advertisement, §4.3/§4.4 neighbour solicitation / advertisement, §4.5 redirect,
+    # RFC 3810 §5.1 multicast listener query (version 2): the 8-byte header is followed by type-specific fixed fields
+    "ICMPv6RouterAdvert": cfg("tins/icmpv6.h", "Tins::ICMPv6", [("header_", "icmp6_header"), ("reach_time_", "@int"), ("retrans_timer_", "@int")],
+                              ctor="new Tins::ICMPv6(Tins::ICMPv6::ROUTER_ADVERT)", fix=[(0, 0x00, 134)], **ICMP6),
+    "ICMPv6NeighbourAdvert": cfg("tins/icmpv6.h", "Tins::ICMPv6", [("header_", "icmp6_header"), ("target_address_", "@bytes")],
+                                 ctor="new Tins::ICMPv6(Tins::ICMPv6::NEIGHBOUR_ADVERT)", fix=[(0, 0x00, 136)], **ICMP6),
+    "ICMPv6Redirect": cfg("tins/icmpv6.h", "Tins::ICMPv6", [("header_", "icmp6_header"), ("target_address_", "@bytes"), ("dest_address_", "@bytes")],
+                          ctor="new Tins::ICMPv6(Tins::ICMPv6::REDIRECT)", fix=[(0, 0x00, 137)], **ICMP6),
+    "ICMPv6MLDQuery": cfg("tins/icmpv6.h", "Tins::ICMPv6", [("header_", "icmp6_header"), ("multicast_address_", "@bytes"),
+                                                           ("mlqm_", "multicast_listener_query_message_fields")],
+                          ctor="new Tins::ICMPv6(Tins::ICMPv6::MGM_QUERY)", fixup="o.use_mldv2(true);", fix=[(0, 0x00, 130)], **ICMP6),
     "DHCPv6": cfg("tins/dhcpv6.h", "Tins::DHCPv6", [("header_data_", "@bytes")], inner=False, files=["src/dhcpv6.cpp", "include/tins/dhcpv6.h"]),
-    "Dot11Data": cfg("tins/dot11/dot11_data.h", "Tins::Dot11Data", [("header_", "dot11_header"), ("ext_header_", "dot11_extended_header")],
-                     files=["src/dot11/dot11_data.cpp", "include/tins/dot11/dot11_data.h", "src/dot11/dot11_base.cpp", "include/tins/dot11/dot11_base.h"],
-                     bases=["Tins::Dot11"]),
-    "Dot11Beacon": cfg("tins/dot11/dot11_beacon.h", "Tins::Dot11Beacon", [("header_", "dot11_header"), ("ext_header_", "dot11_extended_header")],
-                       files=["src/dot11/dot11_mgmt.cpp", "include/tins/dot11/dot11_mgmt.h", "src/dot11/dot11_base.cpp", "include/tins/dot11/dot11_base.h"],
-                       bases=["Tins::Dot11ManagementFrame", "Tins::Dot11"]),
-    "Dot11RTS": cfg("tins/dot11/dot11_control.h", "Tins::Dot11RTS", [("header_", "dot11_header"), ("taddr_", "@bytes")],
-                    files=["src/dot11/dot11_control.cpp", "include/tins/dot11/dot11_control.h", "src/dot11/dot11_base.cpp", "include/tins/dot11/dot11_base.h"],
-                    bases=["Tins::Dot11ControlTA", "Tins::Dot11Control", "Tins::Dot11"]),
-    "Dot11BlockAckRequest": cfg("tins/dot11/dot11_control.h", "Tins::Dot11BlockAckRequest",
-                                [("header_", "dot11_header"), ("taddr_", "@bytes"), ("bar_control_", "@int"), ("start_sequence_", "@int")],
-                                files=["src/dot11/dot11_control.cpp", "include/tins/dot11/dot11_control.h", "src/dot11/dot11_base.cpp", "include/tins/dot11/dot11_base.h"],
-                                bases=["Tins::Dot11ControlTA", "Tins::Dot11Control", "Tins::Dot11"]),
-    "Dot11": cfg("tins/dot11/dot11_base.h", "Tins::Dot11", [("header_", "dot11_header")],
-                 files=["src/dot11/dot11_base.cpp", "include/tins/dot11/dot11_base.h"]),
+    # RFC 8415 §9 relay agent / server message: msg-type, hop-count, link-address, peer-address
+    "DHCPv6Relay": cfg("tins/dhcpv6.h", "Tins::DHCPv6", [("header_data_", "@bytes:2"), ("link_addr_", "@bytes"), ("peer_addr_", "@bytes")],
+                       inner=False, files=["src/dhcpv6.cpp", "include/tins/dhcpv6.h"], fix=[(0, 0x00, 12)]),
+    "Dot11": cfg(D11 + "dot11_base.h", "Tins::Dot11", [("header_", "dot11_header")], files=D11_BASE),
+    "Dot11Data": cfg(D11 + "dot11_data.h", "Tins::Dot11Data", [("header_", "dot11_header"), ("ext_header_", "dot11_extended_header")],
+                     files=D11_DATA, bases=["Tins::Dot11"]),
+    # To DS = From DS = 1: address 4 follows the sequence control field (IEEE 802.11-2016 §9.3.2.1)
+    "Dot11DataWDS": cfg(D11 + "dot11_data.h", "Tins::Dot11Data", [("header_", "dot11_header"), ("ext_header_", "dot11_extended_header"), ("addr4_", "@bytes")],
+                        files=D11_DATA, bases=["Tins::Dot11"], fix=BOTH_DS),
+    "Dot11QoSData": cfg(D11 + "dot11_data.h", "Tins::Dot11QoSData", [("header_", "dot11_header"), ("ext_header_", "dot11_extended_header"), ("qos_control_", "@int")],
+                        files=D11_DATA, bases=["Tins::Dot11Data", "Tins::Dot11"], **NO_FROM_DS),
+    "Dot11QoSDataWDS": cfg(D11 + "dot11_data.h", "Tins::Dot11QoSData", [("header_", "dot11_header"), ("ext_header_", "dot11_extended_header"),
+                                                                         ("addr4_", "@bytes"), ("qos_control_", "@int")],
+                           files=D11_DATA, bases=["Tins::Dot11Data", "Tins::Dot11"], fix=BOTH_DS),
+    "Dot11Beacon": mgmt("Dot11Beacon", "dot11_beacon.h", "dot11_beacon", "dot11_beacon_body", caps=True),
+    "Dot11ProbeRequest": mgmt("Dot11ProbeRequest", "dot11_probe.h", "dot11_probe"),
+    # a management frame with both DS bits set: libtins serialises a fourth address after the sequence control field
+    "Dot11ProbeRequestWDS": cfg(D11 + "dot11_probe.h", "Tins::Dot11ProbeRequest", MGMT_IMG + [("addr4_", "@bytes")],
+                                files=["src/dot11/dot11_probe.cpp", "include/tins/dot11/dot11_probe.h"] + D11_MGMT,
+                                bases=["Tins::Dot11ManagementFrame", "Tins::Dot11"], fix=BOTH_DS),
+    "Dot11ProbeResponse": mgmt("Dot11ProbeResponse", "dot11_probe.h", "dot11_probe", "dot11_probe_response_header", caps=True),
+    "Dot11AssocRequest": mgmt("Dot11AssocRequest", "dot11_assoc.h", "dot11_assoc", "dot11_assoc_request_body", caps=True),
+    "Dot11AssocResponse": mgmt("Dot11AssocResponse", "dot11_assoc.h", "dot11_assoc", "dot11_assoc_response_body", caps=True),
+    "Dot11ReAssocRequest": mgmt("Dot11ReAssocRequest", "dot11_assoc.h", "dot11_assoc", "dot11_reassoc_request_body", caps=True),
+    "Dot11ReAssocResponse": mgmt("Dot11ReAssocResponse", "dot11_assoc.h", "dot11_assoc", "dot11_reassoc_response_body", caps=True),
+    "Dot11Disassoc": mgmt("Dot11Disassoc", "dot11_assoc.h", "dot11_assoc", "dot11_disassoc_body"),
+    "Dot11Authentication": mgmt("Dot11Authentication", "dot11_auth.h", "dot11_auth", "dot11_auth_body"),
+    "Dot11Deauthentication": mgmt("Dot11Deauthentication", "dot11_auth.h", "dot11_auth", "dot11_deauth_body"),
+    "Dot11Ack": cfg(D11 + "dot11_control.h", "Tins::Dot11Ack", [("header_", "dot11_header")], files=D11_CTRL,
+                    bases=["Tins::Dot11Control", "Tins::Dot11"]),
+    "Dot11RTS": ctrl_ta("Dot11RTS"),
+    "Dot11PSPoll": ctrl_ta("Dot11PSPoll"),
+    "Dot11CFEnd": ctrl_ta("Dot11CFEnd"),
+    "Dot11EndCFAck": ctrl_ta("Dot11EndCFAck"),
+    "Dot11BlockAckRequest": ctrl_ta("Dot11BlockAckRequest", [("bar_control_", "@int"), ("start_sequence_", "@int")]),
+    "Dot11BlockAck": ctrl_ta("Dot11BlockAck", [("bar_control_", "@int"), ("start_sequence_", "@int"), ("bitmap_", "@bytes")],
+                             exprs={"bitmap": ptr_acc("bitmap", 8)}, arg={"bitmap": "bytes 8"}),
+    # IEEE 802.1X-2010 §11.3 EAPOL header + descriptor type, followed by the RC4 (802.1X-2001 §7.6) / RSN
+    # (IEEE 802.11-2016 §12.7.2) key descriptor
+    "RC4EAPOL": cfg("tins/eapol.h", "Tins::RC4EAPOL", [("EAPOL::header_", "eapol_header", "header_", "EAPOL"),
+                                                       ("header_", "rc4_eapol_header", "header_", "RC4EAPOL")],
+                    files=EAPOLF, bases=["Tins::EAPOL"],
+                    exprs={"key_iv": ptr_acc("key_iv", 16), "key_sign": ptr_acc("key_sign", 16)}, arg={"key_iv": "bytes 16", "key_sign": "bytes 16"}),
+    "RSNEAPOL": cfg("tins/eapol.h", "Tins::RSNEAPOL", [("EAPOL::header_", "eapol_header", "header_", "EAPOL"),
+                                                       ("header_", "rsn_eapol_header", "header_", "RSNEAPOL")],
+                    files=EAPOLF, bases=["Tins::EAPOL"],
+                    exprs={"key_iv": ptr_acc("key_iv", 16), "nonce": ptr_acc("nonce", 32), "rsc": ptr_acc("rsc", 8), "id": ptr_acc("id", 8),
+                           "mic": ptr_acc("mic", 16)},
+                    arg={"key_iv": "bytes 16", "nonce": "bytes 32", "rsc": "bytes 8", "id": "bytes 8", "mic": "bytes 16"}),
+    # IEEE 802.2 §5.4: the three control field formats; LLC keeps the format in a separate member `type_`
+    "LLCInfo": cfg("tins/llc.h", "Tins::LLC", [("header_", "llchdr"), ("control_field.info", "info_control_field")],
+                   fixup="o.type(Tins::LLC::INFORMATION);", fix=[(2, 0xfe, 0x00)], **LLCF),
+    "LLCSupervisory": cfg("tins/llc.h", "Tins::LLC", [("header_", "llchdr"), ("control_field.super", "super_control_field")],
+                          fixup="o.type(Tins::LLC::SUPERVISORY);", fix=[(2, 0xfc, 0x01)], **LLCF),
+    "LLCUnnumbered": cfg("tins/llc.h", "Tins::LLC", [("header_", "llchdr"), ("control_field.unnumbered", "un_control_field")],
+                         fixup="o.type(Tins::LLC::UNNUMBERED);", fix=[(2, 0xfc, 0x03)],
+                         exprs={"modifier_function_hi": ("to_val(uint8_t(o.modifier_function() >> 3))",
+                                                         "o.modifier_function(static_cast<Tins::LLC::ModifierFunctions>((bits(v, 2) << 3) | (o.modifier_function() & 7)))"),
+                                "modifier_function_lo": ("to_val(uint8_t(o.modifier_function() & 7))",
+                                                         "o.modifier_function(static_cast<Tins::LLC::ModifierFunctions>((o.modifier_function() & 0x18) | bits(v, 3)))")},
+                         arg={"modifier_function_hi": "int 2", "modifier_function_lo": "int 3"}, **LLCF),
+    "Loopback": cfg("tins/loopback.h", "Tins::Loopback", [("family_", "@int")], files=["src/loopback.cpp", "include/tins/loopback.h"]),
+    "RadioTap": cfg("tins/radiotap.h", "Tins::RadioTap", [("header_", "radiotap_header")], files=["src/radiotap.cpp", "include/tins/radiotap.h"]),
+    # PPI is parse-only (write_serialization throws): the image itself stands for the serialisation
+    "PPI": cfg("tins/ppi.h", "Tins::PPI", [("header_", "ppi_header")], inner=False, serial=False,
+               ctor="new Tins::PPI((const uint8_t*)\"\\0\\0\\x08\\0\\0\\0\\0\\0\", 8)", files=["src/ppi.cpp", "include/tins/ppi.h"]),
+    # padding bit is derived from padding_size_ (serialisation throws when it is set without a padding size)
+    "RTP": cfg("tins/rtp.h", "Tins::RTP", [("header_", "rtp_header")], files=["src/rtp.cpp", "include/tins/rtp.h"], fix=[(0, 0xdf, 0x00)]),
+    # RFC 3550 §5.3.1: X = 1, a header extension (profile, length) follows the fixed header (no CSRC list here)
+    "RTPExtension": cfg("tins/rtp.h", "Tins::RTP", [("header_", "rtp_header"), ("ext_header_", "rtp_extension_header")],
+                        files=["src/rtp.cpp", "include/tins/rtp.h"], fix=[(0, 0xdf, 0x10), (14, 0x00, 0x00), (15, 0x00, 0x00)],
+                        avoid={"extension_bit": {"0"}}),
+    # RFC 4884 §7: extension structure header (version, reserved, checksum) and object header (length, class, c-type);
+    # not PDUs.  The object's length field is not a member: the image is the two bytes after it.
+    "ICMPExtensionsStructure": cfg("tins/icmp_extension.h", "Tins::ICMPExtensionsStructure", [("version_and_reserved_", "@int")], pdu=False,
+                                   ser_expr="o.serialize()", files=["src/icmp_extension.cpp", "include/tins/icmp_extension.h"]),
+    "ICMPExtension": cfg("tins/icmp_extension.h", "Tins::ICMPExtension", [("extension_class_", "@int"), ("extension_type_", "@int")], pdu=False,
+                         ser_expr="o.serialize()", ser_skip=2, files=["src/icmp_extension.cpp", "include/tins/icmp_extension.h"]),
 }
 
 
@@ -97,6 +248,9 @@ def parse_spec():
     n_lines = len(re.findall(r'^\s*r "', txt, re.M))
     if n_lines != len(rows):
         raise RuntimeError(f"Spec.lean: {n_lines} row lines but {len(rows)} parsed (format is one `r ...` per line)")
+    n_cls = len(re.findall(r'^\s*c "', txt, re.M))
+    if n_cls != len(classes):
+        raise RuntimeError(f"Spec.lean: {n_cls} class lines but {len(classes)} parsed")
     return classes, rows
 
 
@@ -115,12 +269,13 @@ def preprocessed(include):
 
 
 def find_struct_body(text, name):
-    """body of `struct name { ... }`; `name#2` selects the second definition of that name in the header"""
+    """body of `struct name { ... }`; `name#2` selects the second definition of that name in the header.
+    For a `class name { private: <data members> public: <functions> }` only the data members are returned."""
     nth = 1
     if "#" in name:
         name, n = name.split("#")
         nth = int(n)
-    ms = list(re.finditer(r"\b(?:struct|union)\s+" + re.escape(name) + r"\s*\{", text))
+    ms = list(re.finditer(r"\b(struct|union|class)\s+" + re.escape(name) + r"\s*\{", text))
     if len(ms) < nth:
         return None
     m = ms[nth - 1]
@@ -128,7 +283,10 @@ def find_struct_body(text, name):
     while depth and i < len(text):
         depth += {"{": 1, "}": -1}.get(text[i], 0)
         i += 1
-    return text[m.end():i - 1]
+    body = text[m.end():i - 1]
+    if m.group(1) == "class":
+        body = body.split("public:")[0].replace("private:", " ")
+    return body
 
 
 def parse_members(text, body, prefix=""):
@@ -260,13 +418,25 @@ def norm(body):
 
 
 def find_function(texts, cls, name, setter, bases=()):
-    """body text and parameter name of the setter `void cls::name(T p)` / getter `R cls::name() const`
-    (looked up in the class, then in its base classes)"""
+    """(body text, parameter name, class it was found in) of the setter `void cls::name(T p)` / getter
+    `R cls::name() const` (looked up in the class, then in its base classes)"""
     for c in [cls] + list(bases):
         r = find_function1(texts, c, name, setter)
         if r[0] is not None:
-            return r
-    return None, None
+            return r[0], r[1], c.split("::")[-1]
+    return None, None, None
+
+
+def class_scope(txt, short):
+    """text of `class short { ... }` (brace matched), or None"""
+    cm = re.search(r"\bclass\s+(?:TINS_API\s+)?" + re.escape(short) + r"\b[^;{]*\{", txt)
+    if not cm:
+        return None
+    i, depth = cm.end(), 1
+    while depth and i < len(txt):
+        depth += {"{": 1, "}": -1}.get(txt[i], 0)
+        i += 1
+    return txt[cm.start():i]
 
 
 def find_function1(texts, cls, name, setter):
@@ -277,16 +447,15 @@ def find_function1(texts, cls, name, setter):
                     r"\bvoid\s+" + re.escape(name) + r"\s*\(([^)]+)\)\s*\{"]
         else:
             pats = [r"\b" + re.escape(short) + r"::" + re.escape(name) + r"\s*\(\s*\)\s*(?:const)?\s*\{",
-                    r"[\w:<>]+\s+" + re.escape(name) + r"\s*\(\s*\)\s*(?:const)?\s*\{"]
+                    r"[\w:<>]+\s*[&*]?\s+" + re.escape(name) + r"\s*\(\s*\)\s*(?:const)?\s*\{",
+                    r"[\w:<>]+\s*[&*]\s*" + re.escape(name) + r"\s*\(\s*\)\s*(?:const)?\s*\{"]
         for k, p in enumerate(pats):
             scope = txt
-            if k == 1:
+            if k >= 1:
                 # inline definition: restrict to the text of the class
-                cm = re.search(r"\bclass\s+(?:TINS_API\s+)?" + re.escape(short) + r"\b[^;{]*\{", txt)
-                if not cm:
+                scope = class_scope(txt, short)
+                if scope is None:
                     continue
-                nxt = re.search(r"\n(?:class|template)\s", txt[cm.end():])
-                scope = txt[cm.start(): cm.end() + (nxt.start() if nxt else len(txt))]
             m = re.search(p, scope)
             if not m:
                 continue
@@ -303,71 +472,120 @@ def find_function1(texts, cls, name, setter):
     return None, None
 
 
-def classify(cls, conf, row, texts):
-    """('simple', image member, path, conv) or ('custom', reason)"""
-    gname, sname = conf["names"].get(row["fld"], (row["fld"], row["fld"]))
-    if row["fld"] in conf["exprs"]:
-        return ("custom", "expression accessor")
-    imgs = "|".join(re.escape(i[0]) for i in conf["image"])
-    M = r"(?:this->)?(" + imgs + r")\.([\w\.]+(?:\[\d+\])?)"
-    selfs = [lv for lv, st in conf["image"] if st in ("@int", "@bytes")]
+GET_PATS = [("none", r"return {M};"),
+            ("be", r"return Endian::be_to_host(?:<\w+>)?\({M}\);"),
+            ("le", r"return Endian::le_to_host(?:<\w+>)?\({M}\);"),
+            ("none", r"return (?:\w+_type|\w*[aA]ddress\w*)\({M}\);"),
+            ("none", r"return \((?:\w+)\)\s*{M};"),
+            ("none", r"return static_cast<\s*\w+\s*>\({M}\);"),
+            ("be", r"return \((?:\w+)\)\s*Endian::be_to_host(?:<\w+>)?\({M}\);"),
+            ("be", r"return static_cast<\s*\w+\s*>\(Endian::be_to_host(?:<\w+>)?\({M}\)\);")]
+SET_PATS = [("none", r"{M} = {P};"),
+            ("none", r"\w+ = {M} = {P};"),
+            ("none", r"{M} = static_cast<\s*\w+\s*>\({P}\);"),
+            ("be", r"{M} = Endian::host_to_be(?:<\w+>)?\({P}\);"),
+            ("le", r"{M} = Endian::host_to_le(?:<\w+>)?\({P}\);"),
+            ("bool01", r"{M} = \({P}\)\s*\? 1 : 0;"),
+            ("bytes", r"{P}\.copy\({M}\);"),
+            # whole-array copies from a pointer (the size must be the size of the destination array)
+            ("bytes", r"memcpy\({M}, {P}, sizeof\((?P<szof>[\w\.>-]+)\)\);"),
+            ("bytes", r"memcpy\({M}, {P}, (?P<szname>[A-Za-z_]\w*)\);"),
+            ("bytes", r"(?:std::)?copy\({P}, {P} \+ sizeof\((?P<szof>[\w\.>-]+)\), {M}\);"),
+            # BootP::chaddr<n>: `min(n, sizeof field)` bytes of the address, the rest of the field zero-filled
+            ("bytes_zfill", r"size_t copy_threshold = std::min\(n, sizeof\((?P<szof>[\w\.>-]+)\)\); "
+                            r"for \(size_t i = 0; i < sizeof\((?P<szof2>[\w\.>-]+)\); \+\+i\) \{ if \(i < copy_threshold\) \{ {M}\[i\] = {P}\[i\]; \} "
+                            r"else \{ (?P<dst2>[\w\.>-]+)\[i\] = 0; \} \}")]
 
-    def selfnorm(b):
-        for lv in selfs:
-            b = re.sub(r"\b" + re.escape(lv) + r"\b(?!\.)", lv + "." + lv, b)
-        return b
-    gbody, _ = find_function(texts, conf["type"], gname, False, conf["bases"])
+
+def classify(cls, conf, row, texts, raw_texts):
+    """('simple', image index, path, conv) or ('custom', reason); plus the class the accessor was found in"""
+    fld = row["fld"]
+    entries = [img_entry(e) for e in conf["image"]]
+    if fld in conf["sub"]:
+        objacc, nested, src, prefix, nname = conf["sub"][fld]
+        # the object accessor must return the nested object stored in the image
+        obody, _, _ = find_function(texts, conf["type"], objacc.rstrip("()"), False, conf["bases"])
+        if obody is None or norm(obody) != f"return {src}.{prefix};":
+            return ("custom", f"object accessor {objacc}: {obody}"), nested
+        idx = [i for i, e in enumerate(entries) if e["src"] == src][0]
+        gbody, _, _ = find_function(texts, nested, nname, False)
+        sbody, p, _ = find_function(texts, nested, nname, True)
+        if gbody is None or sbody is None:
+            return ("custom", "nested accessor not found"), nested
+        mg = re.fullmatch(r"return (\w+);", gbody)
+        ms = re.fullmatch(r"(\w+) = " + re.escape(p) + r";", sbody)
+        if not mg or not ms or mg.group(1) != ms.group(1):
+            return ("custom", f"nested accessor: {gbody} / {sbody}"), nested
+        return ("simple", idx, prefix + "." + mg.group(1), "none"), nested
+    gname, sname = conf["names"].get(fld, (fld, fld))
+    gbody, _, gcls = find_function(texts, conf["type"], gname, False, conf["bases"])
     if gbody is None:
-        return ("custom", "getter not found")
-    gbody = selfnorm(gbody)
+        return ("custom", "getter not found"), None
+    own = conf["type"].split("::")[-1]
+
+    def visible(found_in):
+        return [(i, e) for i, e in enumerate(entries) if e["owner"] is None or e["owner"] == found_in]
+
+    def M_of(found_in):
+        names = sorted({e["src"] for _, e in visible(found_in)}, key=len, reverse=True)
+        return r"(?:this->)?(?P<img>" + "|".join(re.escape(nm) for nm in names) + r")\.(?P<path>[\w\.]+(?:\[\d+\])?)"
+
+    def selfnorm(b, found_in):
+        for _, e in visible(found_in):
+            if e["st"].startswith("@"):
+                b = re.sub(r"(?<![\w\.])" + re.escape(e["src"]) + r"\b(?!\.)", e["src"] + "." + e["src"], b)
+        return b
+
+    def img_index(found_in, src):
+        return [i for i, e in visible(found_in) if e["src"] == src][0]
+
+    gbody = selfnorm(gbody, gcls)
     gconv = None
-    for conv, pat in [("none", r"return " + M + r";"),
-                      ("be", r"return Endian::be_to_host(?:<\w+>)?\(" + M + r"\);"),
-                      ("le", r"return Endian::le_to_host(?:<\w+>)?\(" + M + r"\);"),
-                      ("none", r"return (?:\w+_type|\w*[aA]ddress\w*)\(" + M + r"\);"),
-                      ("none", r"return \((?:\w+)\)\s*" + M + r";"),
-                      ("none", r"return static_cast<\s*\w+\s*>\(" + M + r"\);"),
-                      ("be", r"return \((?:\w+)\)\s*Endian::be_to_host(?:<\w+>)?\(" + M + r"\);"),
-                      ("be", r"return static_cast<\s*\w+\s*>\(Endian::be_to_host(?:<\w+>)?\(" + M + r"\)\);")]:
-        m = re.fullmatch(pat, gbody)
+    for conv, pat in GET_PATS:
+        m = re.fullmatch(pat.replace("{M}", M_of(gcls)), gbody)
         if m:
-            gconv, gimg, gpath = conv, m.group(1), m.group(2)
+            gconv, gimg, gpath = conv, img_index(gcls, m.group("img")), m.group("path")
             break
     if gconv is None:
-        return ("custom", "getter: " + gbody[:80])
+        return ("custom", "getter: " + gbody[:80]), gcls
     if row["access"] == "ro":
         conv = "bytes" if row["kind"] == "bytes" else gconv
-        return ("simple", gimg, gpath, conv)
-    sbody, p = find_function(texts, conf["type"], sname, True, conf["bases"])
+        return ("simple", gimg, gpath, conv), gcls
+    sbody, p, scls = find_function(texts, conf["type"], sname, True, conf["bases"])
     if sbody is None:
-        return ("custom", "setter not found")
-    sbody = selfnorm(sbody)
+        return ("custom", "setter not found"), gcls
+    sbody = selfnorm(sbody, scls)
     P = re.escape(p)
     sconv = None
-    for conv, pat in [("none", M + r" = " + P + r";"),
-                      ("none", r"\w+ = " + M + r" = " + P + r";"),
-                      ("none", M + r" = static_cast<\s*\w+\s*>\(" + P + r"\);"),
-                      ("be", M + r" = Endian::host_to_be(?:<\w+>)?\(" + P + r"\);"),
-                      ("le", M + r" = Endian::host_to_le(?:<\w+>)?\(" + P + r"\);"),
-                      ("bool01", M + r" = \(" + P + r"\)\s*\? 1 : 0;"),
-                      ("bytes", P + r"\.copy\(" + M + r"\);")]:
-        m = re.fullmatch(pat, sbody)
+    for conv, pat in SET_PATS:
+        m = re.fullmatch(pat.replace("{M}", M_of(scls), 1).replace("{M}", r"(?P=img)\.(?P=path)").replace("{P}", P), sbody)
         if m:
-            sconv, simg, spath = conv, m.group(1), m.group(2)
+            d = m.groupdict()
+            dst = f"{m.group('img')}.{m.group('path')}"
+            ok = all(d.get(k) in (None, dst) for k in ("szof", "szof2", "dst2"))
+            if ok and d.get("szname"):
+                # `memcpy(dst, p, name)`: the destination must be declared `dst[name]`
+                leaf = m.group("path").split(".")[-1]
+                ok = any(re.search(r"\b" + re.escape(leaf) + r"\s*\[\s*" + re.escape(d["szname"]) + r"\s*\]", t) for t in raw_texts)
+            if not ok:
+                continue
+            sconv, simg, spath = conv, img_index(scls, m.group("img")), m.group("path")
             break
     if sconv is None:
-        return ("custom", "setter: " + sbody[:80])
+        return ("custom", "setter: " + sbody[:80]), gcls
     if (simg, spath) != (gimg, gpath):
-        return ("custom", f"getter reads {gimg}.{gpath}, setter writes {simg}.{spath}")
+        return ("custom", f"getter reads {gimg}.{gpath}, setter writes {simg}.{spath}"), gcls
     if row["kind"] == "bytes":
-        if sconv in ("none", "bytes") and gconv == "none":
-            return ("simple", simg, spath, "bytes")
-        return ("custom", "address accessor with conversion")
+        if sconv == "bytes_zfill" and row["scale"] != 1:
+            return ("custom", "copy of a shorter address, rest of the field zero-filled"), gcls
+        if sconv in ("none", "bytes", "bytes_zfill") and gconv == "none":
+            return ("simple", simg, spath, "bytes"), gcls
+        return ("custom", "address accessor with conversion"), gcls
     if sconv == "bool01" and gconv == "none":
-        return ("simple", simg, spath, "bool01")
+        return ("simple", simg, spath, "bool01"), gcls
     if sconv != gconv:
-        return ("custom", f"setter conv {sconv}, getter conv {gconv}")
-    return ("simple", simg, spath, sconv)
+        return ("custom", f"setter conv {sconv}, getter conv {gconv}"), gcls
+    return ("simple", simg, spath, sconv), gcls
 
 
 # ----------------------------------------------------------------------------------------------- C++ shared text
@@ -382,6 +600,8 @@ CPP_COMMON = r'''
 #include <functional>
 #include <tins/tins.h>
 #include <tins/small_uint.h>
+#include <tins/rtp.h>
+#include <tins/icmp_extension.h>
 
 struct Val { bool is_bytes; unsigned long long n; std::vector<uint8_t> b; Val() : is_bytes(false), n(0) {} };
 struct DomainError { };
@@ -437,6 +657,16 @@ template <> struct Conv<Tins::STP::bpdu_id_type> {
     }
     static std::string info() { return "int 64"; }
 };
+// a value of an n-bit domain (pseudo-rows that drive one part of a split field through the public pair)
+static inline unsigned bits(const Val& v, unsigned n) {
+    if (v.is_bytes || (v.n >> n) != 0) throw DomainError();
+    return unsigned(v.n);
+}
+// setters that take `const uint8_t*` to an array of known size
+static inline const uint8_t* byte_ptr(const Val& v, size_t n) {
+    if (!v.is_bytes || v.b.size() != n) throw DomainError();
+    return v.b.data();
+}
 
 static inline std::string hexs(const uint8_t* p, size_t n) {
     static const char* d = "0123456789abcdef";
@@ -469,6 +699,13 @@ def member_ident(cls, path):
     return cls + "_" + re.sub(r"[^\w]", "_", path)
 
 
+def piece_size(e):
+    """C++ expression for the number of image bytes the entry contributes (`o` is the object)"""
+    if e["st"].startswith("@bytes:"):
+        return e["st"].split(":")[1]
+    return f"sizeof(o.{e['lv']})"
+
+
 def build_tables():
     classes, rows = parse_spec()
     tables = {}
@@ -477,71 +714,95 @@ def build_tables():
             raise RuntimeError(f"class {cname} of Spec.lean has no C++ configuration in gen_layout.py")
         conf = CONFIG[cname]
         pp = preprocessed(conf["include"])
-        members = []        # (image index, image lvalue, struct, path, kind, bfwidth)
-        for idx, (lv, st) in enumerate(conf["image"]):
-            if st in ("@int", "@bytes"):                 # a scalar / address member of the class, not a struct
-                members.append((idx, lv, st, lv, "selfint" if st == "@int" else "selfarr", 0))
-                continue
-            body = find_struct_body(pp, st)
-            if body is None:
-                raise RuntimeError(f"struct {st} not found in {conf['include']}")
-            for path, kind, w in parse_members(pp, body):
-                members.append((idx, lv, st, path, kind, w))
-        texts = [open(os.path.join(REPO, f)).read() for f in conf["files"]]
+        members = []        # dict(idx, lv, st, path, kind, w, ident)
+        used = set()
+        for idx, raw in enumerate(conf["image"]):
+            e = img_entry(raw)
+            if e["st"].startswith("@"):                 # a scalar / address member of the class, not a struct
+                found = [(e["src"], "selfint" if e["st"] == "@int" else "selfarr", 0)]
+            else:
+                body = find_struct_body(pp, e["st"])
+                if body is None:
+                    raise RuntimeError(f"struct {e['st']} not found in {conf['include']}")
+                found = parse_members(pp, body)
+            for path, kind, w in found:
+                ident = member_ident(cname, path)
+                if ident in used:
+                    ident += f"_i{idx}"
+                used.add(ident)
+                members.append(dict(idx=idx, lv=e["lv"], st=e["st"], path=path, kind=kind, w=w, ident=ident))
+        raw_texts = [open(os.path.join(REPO, f)).read() for f in conf["files"]]
+        texts = [strip_comments(t) for t in raw_texts]
         crow = [r for r in rows if r["cls"] == cname]
-        accs = {r["fld"]: classify(cname, conf, r, texts) for r in crow}
-        tables[cname] = dict(cls=k, conf=conf, members=members, rows=crow, accs=accs)
+        accs, found_in = {}, {}
+        for r in crow:
+            accs[r["fld"]], found_in[r["fld"]] = classify(cname, conf, r, texts, raw_texts)
+        tables[cname] = dict(cls=k, conf=conf, members=members, rows=crow, accs=accs, found_in=found_in)
+    extra = sorted(set(CONFIG) - set(classes))
+    if extra:
+        raise RuntimeError("classes configured in gen_layout.py but missing from Spec.lean: " + ", ".join(extra))
     return classes, rows, tables
 
 
 # ----------------------------------------------------------------------------------------------- probe
+def includes_of(tables):
+    return sorted({t["conf"]["include"] for t in tables.values()})
+
+
 def probe_source(tables):
-    inc = sorted({t["conf"]["include"] for t in tables.values()})
     s = ["// GENERATED by translator/gen_layout.py — layout probe (compiled with -fno-access-control)", CPP_COMMON]
-    s += [f"#include <{i}>" for i in inc]
+    s += [f"#include <{i}>" for i in includes_of(tables)]
     s.append(r'''
 static long single_bit(const unsigned char* p, size_t n) {
     long pos = -1;
     for (size_t i = 0; i < n; ++i) for (int b = 0; b < 8; ++b) if (p[i] >> b & 1) { if (pos >= 0) return -2; pos = long(i) * 8 + b; }
     return pos;
 }
-#define P_INT(cls, base, S, path) P_BF(cls, base, S, path, int(8 * sizeof(((S*)0)->path)))
-#define P_BF(cls, base, S, path, W) do { S s; int w = (W); long p0 = -1; int ok = 1; \
-    for (int j = 0; j < w; ++j) { memset(&s, 0, sizeof s); s.path = (unsigned long long)(1) << j; \
+#define P_INT(cls, key, base, S, path) P_BF(cls, key, base, S, path, int(8 * sizeof(((S*)0)->path)))
+#define P_BF(cls, key, base, S, path, W) do { S s; int w = (W); long p0 = -1; int ok = 1; \
+    for (int j = 0; j < w; ++j) { memset((void*)&s, 0, sizeof s); s.path = (unsigned long long)(1) << j; \
         long p = single_bit((const unsigned char*)&s, sizeof s); if (j == 0) p0 = p; if (p < 0 || p != p0 + j) ok = 0; } \
-    printf("M %s %s %ld %d %d\n", cls, #path, long(base) * 8 + p0, w, ok); } while (0)
-#define P_ARR(cls, base, S, path) do { S s; printf("A %s %s %ld %zu\n", cls, #path, long(base) + long((char*)s.path - (char*)&s), sizeof(s.path)); } while (0)
+    printf("M %s %s %ld %d %d\n", cls, key, long(base) * 8 + p0, w, ok); } while (0)
+#define P_ARR(cls, key, base, S, path) do { S s; printf("A %s %s %ld %zu\n", cls, key, long(base) + long((char*)s.path - (char*)&s), sizeof(s.path)); } while (0)
 int main() {''')
     for cname, t in sorted(tables.items()):
         conf = t["conf"]
         T = conf["type"]
         s.append(f"  {{ typedef {T} T; std::unique_ptr<T> op({conf['ctor']}); T& o = *op; size_t base = 0; std::string img;")
-        for idx, (lv, st) in enumerate(conf["image"]):
-            S = f"decltype(o.{lv})"
-            s.append(f"    printf(\"S {cname} {idx} %zu %zu\\n\", base, sizeof(o.{lv}));")
-            for (i2, lv2, st2, path, kind, w) in t["members"]:
-                if i2 != idx:
+        for idx, raw in enumerate(conf["image"]):
+            e = img_entry(raw)
+            lv = e["lv"]
+            S = f"std::remove_reference<decltype(o.{lv})>::type"
+            sz = piece_size(e)
+            s.append(f"    printf(\"S {cname} {idx} %zu %zu\\n\", base, size_t({sz}));")
+            for mb in t["members"]:
+                if mb["idx"] != idx:
                     continue
-                if kind == "selfint":
-                    s.append(f"    printf(\"M {cname} {lv} %zu %zu 1\\n\", base * 8, 8 * sizeof(o.{lv}));")
-                elif kind == "selfarr":
-                    s.append(f"    printf(\"A {cname} {lv} %zu %zu\\n\", base, sizeof(o.{lv}));")
-                elif kind == "int":
-                    s.append(f"    P_INT(\"{cname}\", base, {S}, {path});")
-                elif kind == "bf":
-                    s.append(f"    P_BF(\"{cname}\", base, {S}, {path}, {w});")
-                elif kind == "arr":
-                    s.append(f"    P_ARR(\"{cname}\", base, {S}, {path});")
-            s.append(f"    img += hexs((const uint8_t*)&o.{lv}, sizeof(o.{lv})); base += sizeof(o.{lv});")
+                key, path = mb["ident"], mb["path"]
+                if mb["kind"] == "selfint":
+                    s.append(f"    printf(\"M {cname} {key} %zu %zu 1\\n\", base * 8, 8 * size_t({sz}));")
+                elif mb["kind"] == "selfarr":
+                    s.append(f"    printf(\"A {cname} {key} %zu %zu\\n\", base, size_t({sz}));")
+                elif mb["kind"] == "int":
+                    s.append(f"    P_INT(\"{cname}\", \"{key}\", base, {S}, {path});")
+                elif mb["kind"] == "bf":
+                    s.append(f"    P_BF(\"{cname}\", \"{key}\", base, {S}, {path}, {mb['w']});")
+                elif mb["kind"] == "arr":
+                    s.append(f"    P_ARR(\"{cname}\", \"{key}\", base, {S}, {path});")
+            s.append(f"    img += hexs((const uint8_t*)&o.{lv}, {sz}); base += {sz};")
         s.append(f"    printf(\"D {cname} %s\\n\", img.c_str());")
         for r in t["rows"]:
             if r["access"] != "rw":
                 continue
-            if r["fld"] in conf["arg"]:
-                s.append(f"    printf(\"R {cname} {r['fld']} {conf['arg'][r['fld']]}\\n\");")
+            f = r["fld"]
+            if f in conf["arg"]:
+                s.append(f"    printf(\"R {cname} {f} {conf['arg'][f]}\\n\");")
+            elif f in conf["sub"]:
+                objacc, nested, _, _, nname = conf["sub"][f]
+                s.append(f"    printf(\"R {cname} {f} %s\\n\", arg_info(&std::remove_reference<decltype(o.{objacc})>::type::{nname}).c_str());")
             else:
-                sname = conf["names"].get(r["fld"], (r["fld"], r["fld"]))[1]
-                s.append(f"    printf(\"R {cname} {r['fld']} %s\\n\", arg_info(&T::{sname}).c_str());")
+                sname = conf["names"].get(f, (f, f))[1]
+                s.append(f"    printf(\"R {cname} {f} %s\\n\", arg_info(&T::{sname}).c_str());")
         s.append("  }")
     s.append("  return 0;\n}\n")
     return "\n".join(s)
@@ -599,42 +860,38 @@ def lean_tables(classes, rows, tables, pr):
          "   custom: accessors the translator does not recognise (hand-written models in Fields/Custom.lean);",
          "   args: parameter domain of every public setter (deduced by the C++ compiler in the probe). -/",
          "namespace Tins.Fields.Gen", ""]
-    L.append("/-- sizeof of the header image of every class -/")
-    L.append("def imageLen : List (String × Nat) := [")
-    items = []
-    for cname in sorted(tables):
-        tot = sum(pr["size"][(cname, i)][1] for i in range(len(tables[cname]["conf"]["image"])))
-        items.append(f'  ("{cname}", {tot})')
-    L.append(",\n".join(items) + "]\n")
     L.append("namespace M")
     memtab = []
     for cname in sorted(tables):
-        for (idx, lv, st, path, kind, w) in tables[cname]["members"]:
+        for mb in tables[cname]["members"]:
+            ident, kind = mb["ident"], mb["kind"]
             if kind in ("int", "bf", "selfint"):
-                pos, width, ok = pr["mem"][(cname, path)]
+                pos, width, ok = pr["mem"][(cname, ident)]
                 if not ok:
-                    L.append(f"-- {cname}.{path}: NOT contiguous in memory bit order (unsupported)")
+                    L.append(f"-- {cname}.{mb['path']}: NOT contiguous in memory bit order (unsupported)")
                     continue
-                L.append(f"def {member_ident(cname, path)} : Mem := ⟨{pos // 8}, {pos % 8}, {width}⟩")
-                memtab.append((cname, path, pos // 8, pos % 8, width))
+                L.append(f"def {ident} : Mem := ⟨{pos // 8}, {pos % 8}, {width}⟩")
+                memtab.append((cname, mb["path"], pos // 8, pos % 8, width))
             elif kind in ("arr", "selfarr"):
-                off, size = pr["arr"][(cname, path)]
-                L.append(f"def {member_ident(cname, path)} : Mem := ⟨{off}, 0, {8 * size}⟩")
-                memtab.append((cname, path, off, 0, 8 * size))
+                off, size = pr["arr"][(cname, ident)]
+                L.append(f"def {ident} : Mem := ⟨{off}, 0, {8 * size}⟩")
+                memtab.append((cname, mb["path"], off, 0, 8 * size))
                 for e in range(size if size <= 4 else 0):
-                    L.append(f"def {member_ident(cname, path)}_{e} : Mem := ⟨{off + e}, 0, 8⟩")
+                    L.append(f"def {ident}_{e} : Mem := ⟨{off + e}, 0, 8⟩")
     L.append("end M\n")
     L.append("def members : List (String × String × Mem) := [")
     L.append(",\n".join(f'  ("{c}", "{p}", ⟨{a}, {b}, {w}⟩)' for c, p, a, b, w in memtab) + "]\n")
     simple, custom = [], []
     for cname in sorted(tables):
         t = tables[cname]
+        by_key = {(mb["idx"], mb["path"]): mb for mb in t["members"]}
         for r in t["rows"]:
             a = t["accs"][r["fld"]]
             if a[0] == "simple":
-                path = a[2]
+                idx, path = a[1], a[2]
                 em = re.fullmatch(r"([\w\.]+)\[(\d+)\]", path)
-                key = (cname, em.group(1) if em else path)
+                mb = by_key.get((idx, em.group(1) if em else path))
+                key = (cname, mb["ident"]) if mb else None
                 if key in pr["mem"] and pr["mem"][key][2] and not em:
                     pos, width, _ = pr["mem"][key]
                     mem = (pos // 8, pos % 8, width)
@@ -647,8 +904,6 @@ def lean_tables(classes, rows, tables, pr):
                 simple.append((cname, r["fld"], mem, a[3], path))
             else:
                 custom.append((cname, r["fld"], a[1]))
-    L.append("def simple : List SimpleAcc := [")
-    L.append(",\n".join(f'  ⟨"{c}", "{f}", ⟨{m[0]}, {m[1]}, {m[2]}⟩, .{cv}⟩   /- {p} -/' for c, f, m, cv, p in simple) + "]\n")
     L.append("/-- accessors with a body the translator does not recognise -/")
     L.append("def custom : List (String × String) := [")
     L.append(",\n".join(f'  ("{c}", "{f}")   /- {why.replace("-/", "- /")[:100]} -/' for c, f, why in custom) + "]\n")
@@ -666,40 +921,65 @@ def lean_tables(classes, rows, tables, pr):
                 args.append((cname, r["fld"], min(int(info[1]), r["width"]), "none"))
             else:
                 args.append((cname, r["fld"], int(info[1]), "none"))
-    L.append("def args : List ArgInfo := [")
-    L.append(",\n".join(f'  ⟨"{c}", "{f}", {d}, {s}⟩' for c, f, d, s in args) + "]\n")
+    L.append("/-- per class: sizeof of the header image, recognised one-statement accessors, setter parameter domains -/")
+    L.append("def byClass : List ClassGen := [")
+    blocks = []
+    for cname in sorted(tables):
+        tot = sum(pr["size"][(cname, i)][1] for i in range(len(tables[cname]["conf"]["image"])))
+        sm = ",\n".join(f'      ⟨"{c}", "{f}", ⟨{m[0]}, {m[1]}, {m[2]}⟩, .{cv}⟩   /- {p} -/' for c, f, m, cv, p in simple if c == cname)
+        ar = ",\n".join(f'      ⟨"{c}", "{f}", {d}, {sm_}⟩' for c, f, d, sm_ in args if c == cname)
+        blocks.append(f'  ⟨"{cname}", {tot},\n    [\n{sm}],\n    [\n{ar}]⟩')
+    L.append(",\n".join(blocks) + "]\n")
+    L.append("def imageLen : List (String × Nat) := byClass.map (fun g => (g.name, g.imageLen))")
+    L.append("def simple : List SimpleAcc := byClass.flatMap (·.simple)")
+    L.append("def args : List ArgInfo := byClass.flatMap (·.args)\n")
+    # the class blocks of Spec.rows, in table order (every class must be one contiguous block)
+    segs = []
+    for r in rows:
+        if segs and segs[-1][0] == r["cls"]:
+            segs[-1][1] += 1
+        else:
+            segs.append([r["cls"], 1])
+    if len({c for c, _ in segs}) != len(segs):
+        raise RuntimeError("Spec.rows: the rows of a class are not contiguous")
+    L.append("/-- the class blocks of `Spec.rows` (class, number of rows), in table order -/")
+    L.append("def segments : List (String × Nat) := [" + ", ".join(f'("{c}", {n})' for c, n in segs) + "]\n")
     L.append("end Tins.Fields.Gen\n")
     return "\n".join(L), simple, custom, args
 
 
 # ----------------------------------------------------------------------------------------------- harness output
 def harness_source(classes, rows, tables):
-    inc = sorted({t["conf"]["include"] for t in tables.values()})
     s = ["// GENERATED by translator/gen_layout.py from lean/TinsModel/Fields/Spec.lean — do not edit.",
          "// C15 correspondence harness (compile with -fno-access-control): drives the real getters / setters.",
          "//   init <Class> <image hex> <mask hex>   poke the header image into a fresh object",
          "//   set <field> <decimal | x<hex bytes>>  call the public setter",
          "// answer: r=<ok|value_too_large|domain|throw:..> get=<every getter of the class> hdr=<image> ser=<serialisation & ~mask>",
          '#include "common.h"', CPP_COMMON]
-    s += [f"#include <{i}>" for i in inc]
+    s += [f"#include <{i}>" for i in includes_of(tables)]
     s.append(r'''
 using namespace vh;
+struct Obj {
+    std::shared_ptr<void> root;                               // owns the object (the object itself, or its parent PDU)
+    void* obj;
+    std::function<bool(bytes&, size_t&)> ser;                 // serialisation of the root and the offset of the object in it
+    Obj() : obj(0) {}
+};
 struct RowDef {
     std::string name;
-    std::function<std::string(Tins::PDU&)> get;
-    std::function<void(Tins::PDU&, const Val&)> set;     // empty for read-only rows
+    std::function<std::string(void*)> get;
+    std::function<void(void*, const Val&)> set;               // empty for read-only rows
 };
 struct ClassDef {
     std::string name;
     size_t len;
-    std::function<Tins::PDU*()> make;
-    std::function<Tins::PDU*()> make_parent;             // optional enclosing PDU (owns the object)
-    std::function<void(Tins::PDU&, const uint8_t*)> load;
-    std::function<void(Tins::PDU&, uint8_t*)> image;
+    std::function<Obj()> make;
+    std::function<void(void*, const uint8_t*)> load;
+    std::function<void(void*, uint8_t*)> image;
     std::vector<RowDef> rows;
 };
 static std::vector<ClassDef> classes;
-static std::string guarded_get(const RowDef& r, Tins::PDU& o) {
+static std::string guarded_get(const RowDef& r, void* o) {
     try { return r.get(o); }
     catch (const Tins::value_too_large&) { return "!value_too_large"; }
     catch (const std::exception& e) { return "!" + exc_name(e); }
@@ -709,28 +989,44 @@ static void register_classes() {''')
         t = tables[cname]
         conf = t["conf"]
         T = conf["type"]
+        entries = [img_entry(e) for e in conf["image"]]
         s.append(f"  {{ typedef {T} T; ClassDef c; c.name = \"{cname}\";")
-        s.append("    c.len = " + " + ".join(f"sizeof(((T*)0)->{lv})" for lv, _ in conf["image"]) + ";")
-        mk = f"T* p = {conf['ctor']};"
-        if conf["inner"]:
-            mk += f" p->inner_pdu(new Tins::RawPDU(std::string({conf['payload']}, 'P')));"
-        s.append(f"    c.make = []() -> Tins::PDU* {{ {mk} return p; }};")
-        if conf["parent"]:
-            s.append(f"    c.make_parent = []() -> Tins::PDU* {{ return {conf['parent']}; }};")
-        ld = " ".join(f"memcpy(&o.{lv}, b, sizeof(o.{lv})); b += sizeof(o.{lv});" for lv, _ in conf["image"])
-        s.append(f"    c.load = [](Tins::PDU& pdu, const uint8_t* b) {{ T& o = static_cast<T&>(pdu); {ld} {conf['fixup']} }};")
-        im = " ".join(f"memcpy(b, &o.{lv}, sizeof(o.{lv})); b += sizeof(o.{lv});" for lv, _ in conf["image"])
-        s.append(f"    c.image = [](Tins::PDU& pdu, uint8_t* b) {{ T& o = static_cast<T&>(pdu); {im} }};")
+        s.append("    { std::unique_ptr<T> tmp(" + conf["ctor"] + "); T& o = *tmp; c.len = " + " + ".join(piece_size(e) for e in entries) + "; }")
+        mk = f"T* p = {conf['ctor']}; Obj r; r.obj = p;"
+        if conf["pdu"]:
+            if conf["inner"]:
+                mk += f" p->inner_pdu(new Tins::RawPDU(std::string({conf['payload']}, 'P')));"
+            if conf["parent"]:
+                mk += f" Tins::PDU* root = {conf['parent']}; root->inner_pdu(p);"
+            else:
+                mk += " Tins::PDU* root = p;"
+            mk += " std::shared_ptr<Tins::PDU> sp(root); r.root = sp;"
+            if conf["serial"]:
+                mk += (" r.ser = [sp, p](bytes& out, size_t& off) -> bool { std::unique_ptr<Tins::PDU> cl(sp->clone()); out = cl->serialize();"
+                       f" off = (sp.get() == static_cast<Tins::PDU*>(p) ? 0 : sp->header_size()) + {conf['ser_skip']}; return true; }};")
+        else:
+            mk += " std::shared_ptr<T> sp(p); r.root = sp;"
+            mk += (" r.ser = [sp](bytes& out, size_t& off) -> bool { T o(*sp); "
+                   f"out = {conf['ser_expr']}; off = {conf['ser_skip']}; return true; }};")
+        s.append(f"    c.make = []() -> Obj {{ {mk} return r; }};")
+        ld = " ".join(f"memcpy((void*)&o.{e['lv']}, b, {piece_size(e)}); b += {piece_size(e)};" for e in entries)
+        s.append(f"    c.load = [](void* vp, const uint8_t* b) {{ T& o = *static_cast<T*>(vp); {ld} {conf['fixup']} }};")
+        im = " ".join(f"memcpy(b, (const void*)&o.{e['lv']}, {piece_size(e)}); b += {piece_size(e)};" for e in entries)
+        s.append(f"    c.image = [](void* vp, uint8_t* b) {{ T& o = *static_cast<T*>(vp); {im} }};")
         for r in t["rows"]:
             f = r["fld"]
             gname, sname = conf["names"].get(f, (f, f))
             if f in conf["exprs"]:
                 ge, se = conf["exprs"][f]
+            elif f in conf["sub"]:
+                objacc, nested, _, _, nname = conf["sub"][f]
+                ge = f"to_val(static_cast<const T&>(o).{objacc}.{nname}())"
+                se = f"o.{objacc}.{nname}(Conv<bool>::from(v))"
             else:
                 ge, se = f"do_get(o, &T::{gname})", f"do_set(o, &T::{sname}, v)"
-            s.append(f"    {{ RowDef r; r.name = \"{f}\"; r.get = [](Tins::PDU& pdu) -> std::string {{ T& o = static_cast<T&>(pdu); return {ge}; }};")
+            s.append(f"    {{ RowDef r; r.name = \"{f}\"; r.get = [](void* vp) -> std::string {{ T& o = *static_cast<T*>(vp); return {ge}; }};")
             if r["access"] == "rw":
-                s.append(f"      r.set = [](Tins::PDU& pdu, const Val& v) {{ T& o = static_cast<T&>(pdu); {se}; }};")
+                s.append(f"      r.set = [](void* vp, const Val& v) {{ T& o = *static_cast<T*>(vp); {se}; }};")
             s.append("      c.rows.push_back(r); }")
         s.append("    classes.push_back(c); }")
     s.append(r'''}
@@ -738,19 +1034,18 @@ static void register_classes() {''')
 int main() {
     register_classes();
     const ClassDef* cur = 0;
-    std::unique_ptr<Tins::PDU> root;     // owns obj (obj itself, or its parent)
-    Tins::PDU* obj = 0;
+    Obj cobj;
     bytes mask;
     auto state = [&](const std::string& res) -> std::string {
         std::string out = "r=" + res + " get=";
-        for (size_t i = 0; i < cur->rows.size(); ++i) { if (i) out += ","; out += guarded_get(cur->rows[i], *obj); }
+        for (size_t i = 0; i < cur->rows.size(); ++i) { if (i) out += ","; out += guarded_get(cur->rows[i], cobj.obj); }
         bytes img(cur->len);
-        cur->image(*obj, img.data());
+        cur->image(cobj.obj, img.data());
         out += " hdr=" + hexs(img.data(), img.size()) + " ser=";
         try {
-            std::unique_ptr<Tins::PDU> cl(root->clone());
-            bytes ser = cl->serialize();
-            size_t off = (root.get() == obj) ? 0 : root->header_size();
+            bytes ser; size_t off = 0;
+            if (!cobj.ser) { ser = img; }                     // parse-only class: the image stands for the serialisation
+            else cobj.ser(ser, off);
             if (ser.size() < off + cur->len) out += "short";
             else { for (size_t i = 0; i < cur->len; ++i) ser[off + i] &= uint8_t(~mask[i]); out += hexs(ser.data() + off, cur->len); }
         } catch (const std::exception& e) { out += "!" + exc_name(e); }
@@ -763,9 +1058,8 @@ int main() {
             for (auto& c : classes) if (c.name == w[1]) cur = &c;
             bytes img;
             if (!cur || !parse_hex(w[2], img) || !parse_hex(w[3], mask) || img.size() != cur->len || mask.size() != cur->len) { cur = 0; return "bad-op"; }
-            obj = cur->make();
-            if (cur->make_parent) { root.reset(cur->make_parent()); root->inner_pdu(obj); } else root.reset(obj);
-            cur->load(*obj, img.data());
+            cobj = cur->make();
+            cur->load(cobj.obj, img.data());
             return state("init");
         }
         if (w.size() >= 3 && w[0] == "set" && cur) {
@@ -776,7 +1070,7 @@ int main() {
             if (w[2][0] == 'x') { v.is_bytes = true; if (!parse_hex(w[2].substr(1), v.b)) return "bad-op"; }
             else v.n = std::stoull(w[2]);
             std::string res = "ok";
-            try { r->set(*obj, v); }
+            try { r->set(cobj.obj, v); }
             catch (const Tins::value_too_large&) { res = "value_too_large"; }
             catch (const DomainError&) { res = "domain"; }
             catch (const std::exception& e) { res = "throw:" + exc_name(e); }
@@ -798,8 +1092,120 @@ def write_if_changed(path, content):
     return True
 
 
+# ----------------------------------------------------------------------------------------------- coverage statistics
+SCALAR_T = (r"(?:const\s+)?(?:u?int(?:8|16|32|64)_t|bool|small_uint<\s*\d+\s*>|\w*address_type|HWAddress<\s*\w+\s*>|IPv4Address|IPv6Address|"
+            r"bpdu_id_type)\s*&?|const\s+uint8_t\s*\*")
+# a pair is not a header field when its setter stores the value in an option / tag / list, or outside the header
+OPTION_CALLS = re.compile(r"add_option|add_tagged_option|internal_add_option|add_tag\b|add_pdu_option|search_option|options_|"
+                          r"Utils::|writer\.|option\(")
+NOT_HEADER = {("RTP", "padding_size"): "trailer length, not a header field",
+              ("Dot1Q", "append_padding"): "serialisation option (pad the frame to 60 bytes), not a header field",
+              ("LLC", "type"): "selects the control field format (changes the shape of the header); the getter reads a cached member"}
+
+
+def scan_headers():
+    """every public (setter, getter) pair with a scalar parameter of every class below include/tins, from the headers:
+    list of dict(cls, name, bases, why_excluded or None)"""
+    inc = os.path.join(REPO, "include", "tins")
+    files = sorted(os.path.join(dp, f) for dp, _, fs in os.walk(inc) for f in fs if f.endswith(".h"))
+    srcs = {}
+    for dp, _, fs in os.walk(os.path.join(REPO, "src")):
+        for f in fs:
+            if f.endswith(".cpp"):
+                srcs[os.path.join(dp, f)] = strip_comments(open(os.path.join(dp, f)).read())
+    bases, bodies, where = {}, {}, {}
+    for path in files:
+        txt = strip_comments(open(path).read())
+        for m in re.finditer(r"\bclass\s+(?:TINS_API\s+)?(\w+)\s*(?::\s*public\s+([\w:]+))?\s*\{", txt):
+            i, depth = m.end(), 1
+            while depth and i < len(txt):
+                depth += {"{": 1, "}": -1}.get(txt[i], 0)
+                i += 1
+            bodies[m.group(1)] = txt[m.end():i - 1]
+            bases[m.group(1)] = (m.group(2) or "").split("::")[-1] or None
+            where[m.group(1)] = txt
+    # remove nested class bodies from their parents
+    for c, b in list(bodies.items()):
+        for c2, b2 in bodies.items():
+            if c2 != c and b2 in b and len(b2) < len(b):
+                bodies[c] = bodies[c].replace(b2, " ")
+
+    def chain(c):
+        out = []
+        while c:
+            out.append(c)
+            c = bases.get(c)
+        return out
+
+    pairs = []
+    for c in sorted(bodies):
+        body = le_branch(bodies[c])
+        enums = set(re.findall(r"\benum\s+(\w+)\s*\{", body))
+        ptype = SCALAR_T + ("|(?:" + "|".join(sorted(enums)) + r")\b" if enums else "")
+        setters = {}
+        for m in re.finditer(r"\bvoid\s+(\w+)\s*\(\s*((?:" + ptype + r"))\s*(\w+)?\s*\)\s*[;{]", body):
+            setters.setdefault(m.group(1), m.group(2))
+        getters = set(m.group(1) for m in re.finditer(r"[\w:<>]+\s*[&*]?\s+(\w+)\s*\(\s*\)\s*(?:const)?\s*[;{]", body))
+        getters |= set(m.group(1) for m in re.finditer(r"[\w:<>]+\s*[&*]\s*(\w+)\s*\(\s*\)\s*(?:const)?\s*[;{]", body))
+        is_pdu = "PDU" in chain(c)
+        for name in sorted(setters):
+            if name not in getters:
+                continue
+            why = None
+            if (c, name) in NOT_HEADER:
+                why = NOT_HEADER[(c, name)]
+            elif not (is_pdu or c in ("ICMPExtension", "ICMPExtensionsStructure", "capability_information")):
+                why = "not a protocol header class"
+            else:
+                sb, _ = find_function1([where[c]] + list(srcs.values()), c, name, True)
+                if sb is None:
+                    why = None
+                elif OPTION_CALLS.search(sb):
+                    why = "stored in an option / tag, not in the header"
+            pairs.append(dict(cls=c, name=name, chain=chain(c), why=why))
+    return pairs, bases
+
+
+def coverage_stats(tables):
+    pairs, bases = scan_headers()
+
+    def derives(t, c):
+        while t:
+            if t == c:
+                return True
+            t = bases.get(t)
+        return False
+    covered = set()
+    for cname, t in tables.items():
+        conf = t["conf"]
+        ctype = conf["type"].split("::")[-1]
+        for r in t["rows"]:
+            f = r["fld"]
+            if f in conf["sub"]:
+                covered.add((conf["sub"][f][1], conf["sub"][f][4]))
+                continue
+            for nm in set(conf["names"].get(f, (f, f))) | ({f} if f not in conf["exprs"] else set()):
+                for p in pairs:
+                    if p["name"] == nm and derives(ctype, p["cls"]):
+                        covered.add((p["cls"], nm))
+            if f in conf["exprs"]:
+                for nm in re.findall(r"o\.(\w+)\(", " ".join(conf["exprs"][f])) + re.findall(r"&T::(\w+)", " ".join(conf["exprs"][f])):
+                    for p in pairs:
+                        if p["name"] == nm and derives(ctype, p["cls"]):
+                            covered.add((p["cls"], nm))
+    header_pairs = [p for p in pairs if p["why"] is None]
+    cov = [p for p in header_pairs if (p["cls"], p["name"]) in covered]
+    unc = [p for p in header_pairs if (p["cls"], p["name"]) not in covered]
+    cls_all = sorted({p["cls"] for p in header_pairs})
+    cls_cov = sorted({p["cls"] for p in header_pairs if all((q["cls"], q["name"]) in covered for q in header_pairs if q["cls"] == p["cls"])})
+    return dict(pairs_total=len(header_pairs), pairs_covered=len(cov),
+                pairs_uncovered=sorted(f"{p['cls']}::{p['name']}" for p in unc),
+                classes_with_pairs=cls_all, classes_fully_covered=cls_cov,
+                excluded=sorted(f"{p['cls']}::{p['name']} ({p['why']})" for p in pairs if p["why"]))
+
+
 def generate():
-    """returns dict(classes, rows, simple, custom, args, defaults)"""
+    """returns dict(classes, rows, simple, custom, args, defaults, ...)"""
     classes, rows, tables = build_tables()
     pr = run_probe(tables)
     for cname, t in tables.items():
@@ -808,14 +1214,33 @@ def generate():
     lean, simple, custom, args = lean_tables(classes, rows, tables, pr)
     write_if_changed(GEN_LEAN, lean)
     write_if_changed(GEN_HARNESS, harness_source(classes, rows, tables))
+    # rows whose accessor code is the one already exercised at full strength in an earlier class (inherited accessors,
+    # variants of one C++ class): the generators sample them lightly
+    seen, light = set(), set()
+    for cname in sorted(tables, key=lambda c: (len(tables[c]["conf"]["bases"]), len(tables[c]["conf"]["image"]), c)):
+        t = tables[cname]
+        for r in t["rows"]:
+            key = (t["found_in"].get(r["fld"]) or t["conf"]["type"], t["conf"]["names"].get(r["fld"], (r["fld"],))[0], r["off"], r["width"])
+            if key in seen:
+                light.add((cname, r["fld"]))
+            seen.add(key)
     return dict(classes=classes, rows=rows, simple=simple, custom=custom, args=args, defaults=pr["default"],
-                sizeof={c: t["sizeof"] for c, t in tables.items()})
+                sizeof={c: t["sizeof"] for c, t in tables.items()}, light=light,
+                fix={c: t["conf"]["fix"] for c, t in tables.items()}, avoid={c: t["conf"]["avoid"] for c, t in tables.items()},
+                cpp_type={c: t["conf"]["type"] for c, t in tables.items()}, stats=coverage_stats(tables))
 
 
 def main(argv):
     g = generate()
+    st = g["stats"]
     print(f"C15 translator: {len(g['classes'])} classes, {len(g['rows'])} rows, {len(g['simple'])} simple accessors, "
           f"{len(g['custom'])} custom: " + ", ".join(f"{c}.{f}" for c, f, _ in g["custom"]))
+    print(f"  header-field accessor pairs found in include/tins: {st['pairs_total']}, covered by Spec rows: {st['pairs_covered']}; "
+          f"classes with pairs: {len(st['classes_with_pairs'])}, fully covered: {len(st['classes_fully_covered'])}")
+    if st["pairs_uncovered"]:
+        print("  uncovered: " + ", ".join(st["pairs_uncovered"]))
+    if "-v" in argv:
+        print("  excluded: " + "; ".join(st["excluded"]))
     return 0
 
 
